@@ -96,6 +96,11 @@ def run(chk: Check):
             s = max(0, P - k) if s is None else s          # first variant: the batch ENDS at index P (indices s+1 .. s+k)
             reqs.append(f"halton.seq {k} {s} 40 " + " ".join(str(p) for p in PRIMES40)); meta.append(("seq", k, s, 40))
     chk.count("prime_power_batch_boundaries", 3 * len(powers))
+    # ---- one very large request (more points than any internal block or table size one might think of: 2^16 + a few, 10^5): the same points as always
+    for k_big in ([2 ** 16 + 37] if chk.tier == "quick" else [2 ** 16 + 37, 100003, 2 ** 17 + 1]):
+        s_big = rng.randrange(0, 4096); d_big = rng.choice([1, 2, 3])
+        reqs.append(f"halton.seq {k_big} {s_big} {d_big} " + " ".join(str(p) for p in PRIMES40[:d_big])); meta.append(("seq", k_big, s_big, d_big))
+        chk.count("very_large_single_request")
     # ---- HaltonSampler: seeds, cursors, successive batches
     M = 150 if chk.tier == "quick" else 3000
     for _ in range(M):
